@@ -45,6 +45,7 @@ type Harness struct {
 	Outside        []string           `json:"outside_bounds"`
 	Assumptions    []string           `json:"assumptions"`
 	NoReplay       bool               `json:"no_replay"`
+	NoValidate     bool               `json:"no_validate"`
 
 	// resolved
 	Bounds  map[string]int `json:"-"`
@@ -142,9 +143,12 @@ type HResult struct {
 	Inconcl     []string             `json:"inconclusive,omitempty"`
 	Unreached   []string             `json:"unreached_sites,omitempty"`
 	StaticSites []string             `json:"static_sites"`
+	Validated   int                  `json:"native_validation_runs_agreeing"`
 	funcs       map[string]bool
 	notes       map[string]bool
 	cexs        []*Cex
+	valSamples  []*Cex // inputs of completed paths, replayed natively to validate the translation
+	valSeen     int
 	mu          sync.Mutex
 }
 
@@ -160,6 +164,7 @@ func main() {
 	verbose := flag.Bool("v", false, "verbose")
 	noEvidence := flag.Bool("noevidence", false, "do not write evidence")
 	replayFile := flag.String("replay", "", "natively replay one counterexample record and print the native log")
+	validateN := flag.Int("validate", -1, "completed paths per harness whose solver-chosen inputs are replayed natively to validate the translation (default 3 quick / 8 thorough)")
 	boundsOv := flag.String("bounds", "", "override tier bounds, e.g. K=1,M=1 (debugging; evidence records the bounds actually used)")
 	flag.StringVar(&verifDir, "verif", "/verif", "verif dir")
 	flag.StringVar(&repoDir, "repo", "/repo", "goja source tree to check (default /repo; scratch worktrees for seeded changes)")
@@ -355,7 +360,13 @@ func main() {
 		}
 	}
 
-	rc := &runCtx{sh: sh, prog: prog, hf: harnessFiles, workers: *workers, solverBin: *solverBin, timeout: *timeout, logSMT: *logSMT, verbose: *verbose, prop: *prop, known: known}
+	if *validateN < 0 {
+		*validateN = 3
+		if *tier == "thorough" {
+			*validateN = 8
+		}
+	}
+	rc := &runCtx{sh: sh, prog: prog, hf: harnessFiles, workers: *workers, solverBin: *solverBin, timeout: *timeout, logSMT: *logSMT, verbose: *verbose, prop: *prop, known: known, validate: *validateN, seed: seed}
 	results := rc.explore(sel)
 	replayDir := filepath.Join(verifDir, "replay", *prop)
 	os.RemoveAll(replayDir)
@@ -380,6 +391,48 @@ func main() {
 	}
 	inconclusive := oc.inconclusive
 	violations, knownHits, replays, outLines, sampleCex := oc.violations, oc.knownHits, oc.replays, oc.lines, oc.samples
+	// ---- translator validation: inputs of sampled completed paths must run natively without any
+	// assertion failure or panic (the engine has shown every assertion holds on those paths)
+	{
+		hmap := map[string]*Harness{}
+		for _, h := range sel {
+			hmap[h.ID] = h
+		}
+		var files []string
+		owner := map[string]*HResult{}
+		os.MkdirAll(replayDir, 0o755)
+		n := 0
+		for _, h := range sel {
+			r := results[h.ID]
+			for _, c := range r.valSamples {
+				p := filepath.Join(replayDir, fmt.Sprintf("validate_%s_%d.json", sanitize(c.Harness), n))
+				n++
+				rec := map[string]interface{}{"property": *prop, "harness": c.Harness, "func": h.Func, "pkg": h.Pkg, "assert_id": "__validate__",
+					"values": c.Values, "kinds": c.Kinds, "bounds": h.Bounds}
+				raw, _ := json.MarshalIndent(rec, "", " ")
+				os.WriteFile(p, raw, 0o644)
+				files = append(files, p)
+				owner[p] = r
+			}
+		}
+		if len(files) > 0 {
+			res := nativeReplay(sel, files)
+			for _, f := range files {
+				switch res[f] {
+				case "validated":
+					owner[f].Validated++
+					replays++
+					os.Remove(f)
+				case "assume-failed":
+					// the native run left the harness' assumptions (a symbolic-only stub chose the inputs): not counted
+					os.Remove(f)
+				default:
+					inconclusive = true
+					outLines = append(outLines, fmt.Sprintf("TRANSLATION-MISMATCH property=%s harness=%s native=%s replay=%s (the engine proved every assertion on this path, the native run disagrees)", *prop, owner[f].ID, res[f], f))
+				}
+			}
+		}
+	}
 	// ---- vacuity
 	for _, h := range sel {
 		r := results[h.ID]
@@ -816,6 +869,8 @@ type runCtx struct {
 	verbose   bool
 	prop      string
 	known     map[string]*KnownFinding
+	validate  int
+	seed      int
 }
 
 func (rc *runCtx) explore(sel []*Harness) map[string]*HResult {
@@ -888,6 +943,25 @@ func (rc *runCtx) explore(sel []*Harness) map[string]*HResult {
 				q0, st0 := solver.queries, solver.time
 				outc := e.runPath(t.prefix, t.h.fn)
 				r := results[t.h.ID]
+				if outc.kind == "done" && rc.validate > 0 && !t.h.NoReplay && !t.h.NoValidate {
+					// reservoir-style sampling of completed paths (deterministic in the seed): ask the solver for
+					// concrete inputs of this path; they are replayed natively after the exploration
+					r.mu.Lock()
+					r.valSeen++
+					take := len(r.valSamples) < rc.validate || (r.valSeen*31+rc.seed)%7 == 0
+					r.mu.Unlock()
+					if take && e.solver.checkPushed(nil) == rSat {
+						vals, kinds := e.model()
+						c := &Cex{Harness: t.h.ID, ID: "__validate__", Values: vals, Kinds: kinds, Decisions: append([]uint64{}, e.decisions...)}
+						r.mu.Lock()
+						if len(r.valSamples) < rc.validate {
+							r.valSamples = append(r.valSamples, c)
+						} else {
+							r.valSamples[(r.valSeen+rc.seed)%rc.validate] = c
+						}
+						r.mu.Unlock()
+					}
+				}
 				r.mu.Lock()
 				r.Paths++
 				switch outc.kind {
